@@ -847,3 +847,132 @@ func ruleCUR4(p *Prog) *RuleResult {
 	}
 	return res
 }
+
+func init() {
+	register("CUR5", "a batch iterator reads a zero answer of its inner iterator as 'this chunk is exhausted' and moves on; the answer is zero as well when the buffer handed in has no room. So the inner batch call whose result decides the reload is made only behind a test that the caller's buffer still has room (position < len(buffer)); without it a call with an empty or just-filled buffer silently skips a whole chunk", ruleCUR5)
+}
+
+func ruleCUR5(p *Prog) *RuleResult {
+	res := newResult("CUR5", ruleDoc["CUR5"], 3)
+	for _, ct := range p.cursorTypes() {
+		for _, f := range ct.methods {
+			if f == ct.reload {
+				continue
+			}
+			n := 0
+			for _, b := range f.Blocks {
+				for _, ins := range b.Instrs {
+					c, ok := ct.innerCall(f, ins)
+					if !ok {
+						continue
+					}
+					bt, isB := c.Type().Underlying().(*types.Basic)
+					if !isB || bt.Info()&types.IsInteger == 0 {
+						continue
+					}
+					// a slice argument cut from a slice parameter
+					var buf *ssa.Parameter
+					for _, a := range c.Call.Args {
+						if sl, ok := a.(*ssa.Slice); ok {
+							if prm, ok := sl.X.(*ssa.Parameter); ok {
+								buf = prm
+							}
+						} else if prm, ok := a.(*ssa.Parameter); ok {
+							if _, isS := prm.Type().Underlying().(*types.Slice); isS {
+								buf = prm
+							}
+						}
+					}
+					if buf == nil || c.Referrers() == nil {
+						continue
+					}
+					// is a zero result read as exhaustion? (== 0 / != 0 deciding a branch one side of which reloads)
+					reads := false
+					for _, r := range *c.Referrers() {
+						bo, ok := r.(*ssa.BinOp)
+						if !ok || (bo.Op != token.EQL && bo.Op != token.NEQ) {
+							continue
+						}
+						if z, isC := constIntVal(bo.Y); !isC || z != 0 {
+							continue
+						}
+						if bo.Referrers() == nil {
+							continue
+						}
+						for _, r2 := range *bo.Referrers() {
+							iff, ok := r2.(*ssa.If)
+							if !ok {
+								continue
+							}
+							for _, s := range iff.Block().Succs {
+								for _, in2 := range s.Instrs {
+									if ct.isKill(f, in2) {
+										reads = true
+									}
+								}
+							}
+						}
+					}
+					if !reads {
+						continue
+					}
+					n++
+					cn := fmt.Sprintf("%s|zero answer of inner %s#%d", fname(f), c.Call.Method.Name(), n)
+					isLenBuf := func(v ssa.Value) bool {
+						cl, ok := v.(*ssa.Call)
+						if !ok {
+							return false
+						}
+						bi, ok := cl.Call.Value.(*ssa.Builtin)
+						return ok && bi.Name() == "len" && len(cl.Call.Args) == 1 && cl.Call.Args[0] == ssa.Value(buf)
+					}
+					room := ""
+					for _, b2 := range f.Blocks {
+						iff, ok := b2.Instrs[len(b2.Instrs)-1].(*ssa.If)
+						if !ok {
+							continue
+						}
+						bo, ok := iff.Cond.(*ssa.BinOp)
+						if !ok {
+							continue
+						}
+						var t *ssa.BasicBlock
+						// len(buf[n:]) compared with zero
+						isLenRest := func(v ssa.Value) bool {
+							cl, ok := v.(*ssa.Call)
+							if !ok {
+								return false
+							}
+							bi, ok := cl.Call.Value.(*ssa.Builtin)
+							if !ok || bi.Name() != "len" || len(cl.Call.Args) != 1 {
+								return false
+							}
+							sl, ok := cl.Call.Args[0].(*ssa.Slice)
+							return ok && sl.X == ssa.Value(buf)
+						}
+						isZero := func(v ssa.Value) bool { z, ok := constIntVal(v); return ok && z == 0 }
+						switch {
+						case (bo.Op == token.GTR || bo.Op == token.NEQ) && isLenRest(bo.X) && isZero(bo.Y), bo.Op == token.LSS && isZero(bo.X) && isLenRest(bo.Y):
+							t = b2.Succs[0]
+						case (bo.Op == token.EQL || bo.Op == token.LEQ) && isLenRest(bo.X) && isZero(bo.Y):
+							t = b2.Succs[1]
+						case bo.Op == token.LSS && isLenBuf(bo.Y), bo.Op == token.GTR && isLenBuf(bo.X), bo.Op == token.NEQ && (isLenBuf(bo.X) || isLenBuf(bo.Y)):
+							t = b2.Succs[0]
+						case bo.Op == token.GEQ && isLenBuf(bo.Y), bo.Op == token.LEQ && isLenBuf(bo.X), bo.Op == token.EQL && (isLenBuf(bo.X) || isLenBuf(bo.Y)):
+							t = b2.Succs[1]
+						}
+						if t != nil && len(t.Preds) == 1 && (t == c.Block() || t.Dominates(c.Block())) {
+							room = p.ipos(iff)
+						}
+					}
+					if room != "" {
+						res.ok(cn, p.ipos(c), "called only while the buffer has room (tested at "+room+")")
+					} else {
+						res.bad(cn, p.ipos(c), fmt.Sprintf("a zero answer moves the cursor to the next chunk, but the call is not behind a test that %s still has room: with a full or empty buffer the chunk is skipped unread", buf.Name()))
+					}
+				}
+			}
+		}
+	}
+	return res
+}
